@@ -17,6 +17,7 @@ import (
 	"os"
 	"path/filepath"
 	"runtime"
+	"runtime/debug"
 	"strings"
 	"sync"
 	"sync/atomic"
@@ -55,6 +56,8 @@ import (
 type Conn struct {
 	Segs   []hx.B `json:"segs,omitempty"`
 	Rep    int    `json:"rep,omitempty"`    // the segment list is sent Rep+1 times (large inputs stay small in the case file)
+	Pre    []hx.B `json:"pre,omitempty"`    // sent once before the repeated segments (tcp)
+	Join   bool   `json:"join,omitempty"`   // udp: the Rep+1 repetitions form ONE datagram
 	Remote string `json:"remote,omitempty"` // source ip (default 198.51.100.<n>)
 	SSH    *SSHIn `json:"ssh,omitempty"`    // structured ssh dialogue instead of raw segments
 }
@@ -68,6 +71,8 @@ type Scenario struct {
 	Linger  int    `json:"linger,omitempty"`  // ms the clients stay connected after their last write
 	Rounds  int    `json:"rounds,omitempty"`  // the whole (concurrent) scenario is repeated Rounds+1 times
 	Serial  bool   `json:"serial,omitempty"`  // connections one after the other instead of concurrently
+	Local   string `json:"local,omitempty"`   // destination (local) ip of the connections, default 192.0.2.1
+	HangMs  int    `json:"hang_ms,omitempty"` // how long a handler may go on after its client is gone (default: the job's)
 	Reply   bool   `json:"reply,omitempty"`   // the linger ends as soon as the server has answered; replied connections are counted
 	Comment string `json:"comment,omitempty"` // for the replay file only
 }
@@ -86,7 +91,7 @@ type RawObs struct {
 	FatalEvts int   `json:"fatal_evts"` // fatal-severity events (= recovered panics) during the scenario
 	Growing   bool  `json:"growing"`    // live heap kept growing while every client was idle
 	HeapMB    []int `json:"heap_mb,omitempty"`
-	Probe     bool  `json:"probe"` // a fresh echo connection was served afterwards
+	Probe     bool  `json:"probe"`   // a fresh echo connection was served afterwards
 	Replied   int   `json:"replied"` // connections on which the server wrote at least one byte (raw tcp only)
 	Late      int   `json:"late,omitempty"`
 	Poisoned  bool  `json:"poisoned,omitempty"` // the child stops after this scenario
@@ -103,8 +108,8 @@ type recL struct {
 
 var theL = &recL{accept: make(chan net.Conn), started: make(chan struct{})}
 
-func (l *recL) AddAddress(a net.Addr)          {}
-func (l *recL) SetChannel(c pushers.Channel)   {}
+func (l *recL) AddAddress(a net.Addr)           {}
+func (l *recL) SetChannel(c pushers.Channel)    {}
 func (l *recL) Start(ctx context.Context) error { l.once.Do(func() { close(l.started) }); return nil }
 func (l *recL) Accept() (net.Conn, error)       { return <-l.accept, nil }
 
@@ -221,6 +226,8 @@ func (u *udpC) Close() error { u.once.Do(func() { close(u.closed) }); return nil
 
 var localIP = net.ParseIP("192.0.2.1")
 
+const childMaxStack = 16 << 20
+
 func inject(c net.Conn) bool {
 	select {
 	case theL.accept <- c:
@@ -276,11 +283,22 @@ func (qc *qconn) Close() error {
 	return qc.Conn.Close()
 }
 
+// sockConn gives the server side of the pipe the one socket behaviour net.Pipe lacks: a
+// Read into an empty buffer returns (0, nil) at once (net.Pipe would wait for a writer).
+type sockConn struct{ *lab.AConn }
+
+func (c sockConn) Read(b []byte) (int, error) {
+	if len(b) == 0 {
+		return 0, nil
+	}
+	return c.AConn.Read(b)
+}
+
 // playTCP plays one raw tcp connection; returns true when the server closed its side
 // (its handler returned) within the hang limit.
-func playTCP(port int, remote net.Addr, cn Conn, linger, hang time.Duration, untilReply bool) bool {
-	sc, pc := lab.Pipe(&net.TCPAddr{IP: localIP, Port: port}, remote)
-	if !inject(sc) {
+func playTCP(local net.IP, port int, remote net.Addr, cn Conn, linger, hang time.Duration, untilReply bool) bool {
+	sc, pc := lab.Pipe(&net.TCPAddr{IP: local, Port: port}, remote)
+	if !inject(sockConn{sc}) {
 		return false
 	}
 	cc := newQconn(pc)
@@ -301,6 +319,9 @@ func playTCP(port int, remote net.Addr, cn Conn, linger, hang time.Duration, unt
 				}
 			}
 		}()
+		for _, s := range cn.Pre {
+			cc.Write(s)
+		}
 		for k := 0; k <= cn.Rep; k++ {
 			for _, s := range cn.Segs {
 				cc.Write(s)
@@ -347,9 +368,9 @@ func waitHandlers(hang time.Duration) int {
 	}
 }
 
-func playUDP(port int, remote *net.UDPAddr, dgram []byte, hang time.Duration) bool {
+func playUDP(local net.IP, port int, remote *net.UDPAddr, dgram []byte, hang time.Duration) bool {
 	u := &udpC{DummyUDPConn: &listener.DummyUDPConn{Buffer: append([]byte(nil), dgram...),
-		Laddr: &net.UDPAddr{IP: localIP, Port: port}, Raddr: remote,
+		Laddr: &net.UDPAddr{IP: local, Port: port}, Raddr: remote,
 		Fn: func(b []byte, addr *net.UDPAddr) (int, error) { return len(b), nil }}, closed: make(chan struct{})}
 	if !inject(u) {
 		return false
@@ -404,6 +425,13 @@ func runScenario(sc Scenario, hang time.Duration) RawObs {
 		hx.Fatal("unknown service %q", sc.Svc)
 	}
 	ev0 := atomic.LoadInt64(&fatalEvents)
+	local := localIP
+	if ip := net.ParseIP(sc.Local); ip != nil {
+		local = ip
+	}
+	if sc.HangMs > 0 {
+		hang = time.Duration(sc.HangMs) * time.Millisecond
+	}
 	var mu sync.Mutex
 	for round := 0; round <= sc.Rounds; round++ {
 		var wg sync.WaitGroup
@@ -417,9 +445,22 @@ func runScenario(sc Scenario, hang time.Duration) RawObs {
 			one := func(cn Conn) {
 				defer wg.Done()
 				if sc.Proto == "udp" {
+					if cn.Join {
+						var dg []byte
+						for k := 0; k <= cn.Rep; k++ {
+							for _, s := range cn.Segs {
+								dg = append(dg, s...)
+							}
+						}
+						playUDP(local, d.Port, &net.UDPAddr{IP: ip, Port: rport}, dg, hang)
+						mu.Lock()
+						ob.Conns++
+						mu.Unlock()
+						return
+					}
 					for k := 0; k <= cn.Rep; k++ {
 						for _, s := range cn.Segs {
-							playUDP(d.Port, &net.UDPAddr{IP: ip, Port: rport}, s, hang)
+							playUDP(local, d.Port, &net.UDPAddr{IP: ip, Port: rport}, s, hang)
 							mu.Lock()
 							ob.Conns++
 							mu.Unlock()
@@ -427,7 +468,7 @@ func runScenario(sc Scenario, hang time.Duration) RawObs {
 					}
 					return
 				}
-				rep := playTCP(d.Port, &net.TCPAddr{IP: ip, Port: rport}, cn, time.Duration(sc.Linger)*time.Millisecond, hang, sc.Reply)
+				rep := playTCP(local, d.Port, &net.TCPAddr{IP: ip, Port: rport}, cn, time.Duration(sc.Linger)*time.Millisecond, hang, sc.Reply)
 				mu.Lock()
 				ob.Conns++
 				if rep {
@@ -482,6 +523,9 @@ func childMain(jobPath string) {
 	// does on a machine with less memory than that, whatever the overcommit policy here
 	lim := syscall.Rlimit{Cur: 12 << 30, Max: 12 << 30}
 	syscall.Setrlimit(syscall.RLIMIT_AS, &lim)
+	// stack ceiling: a recursion that grows with every client token shows at ~1e5 tokens
+	// instead of the millions the default 1 GB would take
+	debug.SetMaxStack(childMaxStack)
 	b, err := os.ReadFile(jobPath)
 	if err != nil {
 		hx.Fatal("job: %v", err)
